@@ -762,11 +762,16 @@ def eq_term(ctx: Ctx, a, b):
     if isinstance(a, PList) or isinstance(b, PList):
         if not (isinstance(a, PList) and isinstance(b, PList)):
             return False if not (isinstance(a, list) or isinstance(b, list)) else _plist_vs_list(ctx, a, b)
+        base_eq = None
         if (a.base is None) != (b.base is None) or (a.base is not None and not a.base.eq(b.base)):
-            raise Unsupported("comparison of object lists with different unknown prefixes")
+            # prefix ++ tail lists of equal tail length are equal iff the prefixes are equal and the tails are pairwise equal
+            if len(a.tail) != len(b.tail):
+                raise Unsupported("comparison of object lists with different unknown prefixes and different known suffix lengths")
+            empty = z3.Const("ObjList.empty", usort("ObjList"))
+            base_eq = (a.base if a.base is not None else empty) == (b.base if b.base is not None else empty)
         if len(a.tail) != len(b.tail):
             return False
-        parts = [(x is y) if isinstance(x, Rec) and isinstance(y, Rec) else eq_term(ctx, x, y) for x, y in zip(a.tail, b.tail)]
+        parts = ([base_eq] if base_eq is not None else []) + [(x is y) if isinstance(x, Rec) and isinstance(y, Rec) else eq_term(ctx, x, y) for x, y in zip(a.tail, b.tail)]
         if all(isinstance(p, bool) for p in parts):
             return all(parts)
         return z3.And(*[z3.BoolVal(p) if isinstance(p, bool) else p for p in parts])
@@ -793,7 +798,7 @@ def eq_term(ctx: Ctx, a, b):
             return True
         k = z3.Const(ctx.fresh_name("mk"), a.kty.sort())
         return z3.And(
-            z3.ForAll([k], z3.Select(a.has, k) == z3.Select(b.has, k)),
+            a.has == b.has,  # extensional array equality (quantifier-free)
             z3.ForAll([k], z3.Implies(z3.Select(a.has, k), z3.Select(a.val, k) == z3.Select(b.val, k))),
         )
     if isinstance(a, SMap) or isinstance(b, SMap):
@@ -844,7 +849,11 @@ def eq_term(ctx: Ctx, a, b):
 def _plist_vs_list(ctx, a, b):
     p, l = (a, b) if isinstance(a, PList) else (b, a)
     if p.base is not None:
-        raise Unsupported("object list with unknown prefix compared with a literal list")
+        if l:
+            raise Unsupported("object list with unknown prefix compared with a non-empty literal list")
+        if p.tail:
+            return False
+        return p.base == z3.Const("ObjList.empty", usort("ObjList"))  # the prefix is the empty list
     return eq_term(ctx, p.tail, l)
 
 
@@ -934,7 +943,7 @@ def contains_term(ctx, x, container):
             return False
         return z3.Or(*parts) if len(parts) > 1 else parts[0]
     if isinstance(container, dict):
-        return contains_term(ctx, x, list(container.keys()))
+        return contains_term(ctx, x, [k.v if type(k).__name__ == "_SymKey" else k for k in container.keys()])
     if is_strlike(container) and is_strlike(x):
         if isinstance(container, str) and isinstance(x, BStr) and len(x) == 1:
             c = x.chars[0]
@@ -1143,6 +1152,8 @@ def subscript(ctx: Ctx, v, idx):
     if isinstance(idx, slice):
         return _slice(ctx, v, idx)
     idx = mk(idx)
+    if isinstance(v, PList) and v.base is None:
+        v = v.tail  # an object list without unknown prefix is its known elements
     if is_concrete(v) and is_concrete(idx) and not isinstance(v, dict):
         try:
             return v[idx]
@@ -1161,7 +1172,10 @@ def subscript(ctx: Ctx, v, idx):
             if is_concrete(list(v.keys())):
                 raise PyRaise("KeyError", repr(idx))
         for k in v:
-            if ctx.branch(_as_term(eq_term(ctx, idx, k)), f"key=={k!r}"):
+            t = eq_term(ctx, idx, k.v if type(k).__name__ == "_SymKey" else k)
+            if t is False:
+                continue
+            if t is True or ctx.branch(_as_term(t), "key equals an existing key"):
                 return v[k]
         raise PyRaise("KeyError", "symbolic key")
     if isinstance(v, (list, tuple)):
